@@ -507,3 +507,28 @@ def alpha_key(text: str) -> str:
         out = text
     _ALPHA_CACHE[text] = out
     return out
+
+
+def returned_exprs(fn_node, within=None):
+    """Expressions a function (or the statement list `within`) returns, looking through `tmp = <expr>; return tmp`
+    (a local that is assigned exactly once in the function)."""
+    scope = within if within is not None else fn_node.body
+    out = []
+    assigns = {}
+    for n in ast.walk(fn_node):
+        if isinstance(n, ast.Assign) and len(n.targets) == 1 and isinstance(n.targets[0], ast.Name):
+            assigns.setdefault(n.targets[0].id, []).append(n.value)
+    rets = []
+    for st in scope:
+        for n in ast.walk(st):
+            if isinstance(n, ast.Return) and n.value is not None:
+                rets.append(n.value)
+    for v in rets:
+        if isinstance(v, ast.Name) and len(assigns.get(v.id, [])) >= 1:
+            # the assignment that textually precedes this return inside the same block, else the only one
+            cands = assigns[v.id]
+            prev = [c for c in cands if (c.lineno, c.col_offset) < (v.lineno, v.col_offset)]
+            out.append(prev[-1] if prev else cands[0])
+        else:
+            out.append(v)
+    return out
